@@ -12,10 +12,15 @@ def u64(n):
     return n.to_bytes(8, "little")
 
 
-def enc_known(val, ty):
-    """canonical bytes of the 'known' representative: sequence<tuple<bool,uintN_t>>"""
+def enc_known(val, ty, shape=0):
+    """canonical bytes of the 'known' representatives:
+    shape 0: sequence<tuple<bool,uintN_t>>   value [(bool, int), ...]
+    shape 1: tuple<sequence<bool>,uintN_t>   value ([bool, ...], int)  -- an immutable value holding a mutable one"""
     w = 1 if ty == "T0" else 2
-    return u64(len(val)) + b"".join(bytes([1 if b else 0]) + n.to_bytes(w, "little") for b, n in val)
+    if shape == 0:
+        return u64(len(val)) + b"".join(bytes([1 if b else 0]) + n.to_bytes(w, "little") for b, n in val)
+    bs, n = val
+    return u64(len(bs)) + bytes(1 if b else 0 for b in bs) + n.to_bytes(w, "little")
 
 
 class Rep:
@@ -24,7 +29,13 @@ class Rep:
     def __init__(self, kind, variant=0):
         self.kind = kind
         self.vals = {"v0": [(True, 5)], "vm": [(True, 5), (False, 7)], "vn": [(False, 1)]}
-        if kind == "known":
+        self.shape = 0
+        if kind == "known" and variant % 2 == 1:
+            self.shape = 1
+            self.vals = {"v0": ([True], 5), "vm": ([True, False], 5), "vn": ([False], 5)}
+            self.types = {"T0": "tuple<sequence<bool>,uint8_t>", "T1": "tuple<sequence<bool>,uint16_t>"}
+            self.raw = {True: enc_known(self.vals["v0"], "T0", 1), False: u64(1) + b"\x02\x05"}
+        elif kind == "known":
             self.types = {"T0": "sequence<tuple<bool,uint8_t>>", "T1": "sequence<tuple<bool,uint16_t>>"}
             self.raw = {True: enc_known(self.vals["v0"], "T0"), False: u64(1) + b"\x02\x05"}  # bool byte 02: decodable, not canonical
         elif kind == "top":
@@ -53,7 +64,7 @@ class Rep:
             if b["val"] != "v0" or b["ty"] != "T0":
                 raise MachineryFailure("no concrete bytes for %r in kind %s" % (b, self.kind))
             return self.raw[b["canon"]]
-        return enc_known(self.vals[b["val"]], b["ty"])
+        return enc_known(self.vals[b["val"]], b["ty"], self.shape)
 
 
 class TableEnv:
@@ -113,10 +124,14 @@ class TableEnv:
                 return "none"
             if n == "mutate":
                 d = t.data
-                d[:] = list(self.rep.vals["vm"])   # in place: the same list object now holds the mutated value
+                if self.rep.shape == 1:
+                    d[0][:] = list(self.rep.vals["vm"][0])   # the list inside the (immutable) tuple, in place
+                else:
+                    d[:] = list(self.rep.vals["vm"])          # in place: the same list object holds the new value
                 return "none"
             if n == "assign":
-                t.data = list(self.rep.vals["vn"])
+                vn = self.rep.vals["vn"]
+                t.data = (list(vn[0]), vn[1]) if self.rep.shape == 1 else list(vn)
                 return "none"
             if n == "settype":
                 t.type_name = self.rep.types[op["t"]]
